@@ -9,8 +9,7 @@ Require Import Cadence.Model.Wire.
    (its ErrorKind, a payload identity) *)
 Inductive sink_outcome := Accept | Refuse (k : N) (id : N).
 
-(* the error a call reports *)
-Inductive merror := EInvalid | EIo (k : N) (id : N).      (* kind InvalidInput / IoError+source *)
+(* the error a call reports: [merror] of Model/Convert.v *)
 
 Inductive form := TrySend | Plain | Quiet.                 (* Plain = the untagged trait method *)
 
@@ -27,10 +26,12 @@ Definition send_call (cfg : config) (fm : form) (c : call) (script : list sink_o
   : option (outcome1 * list sink_outcome) :=
   match client_line cfg c with
   | None => None
-  | Some (inl _) =>          (* only InvalidInput is produced by value conversion *)
+  | Some (inl e) =>          (* the error of the value conversion (the library's own impls and the
+                               empty-packed-list check produce EInvalid only; a user's impl may
+                               return any error), reported as it is; the sink is not invoked *)
     Some (match fm with
-          | Quiet => {| o_ret := RUnit; o_emitted := []; o_handled := [EInvalid] |}
-          | _ => {| o_ret := RError EInvalid; o_emitted := []; o_handled := [] |}
+          | Quiet => {| o_ret := RUnit; o_emitted := []; o_handled := [e] |}
+          | _ => {| o_ret := RError e; o_emitted := []; o_handled := [] |}
           end, script)
   | Some (inr line) =>
     let '(o, rest) := match script with [] => (Accept, []) | o :: r => (o, r) end in
